@@ -11,6 +11,8 @@ INVARIANT TypeOK
 INVARIANT StartedOnlyWhenAll
 INVARIANT StopAtMostOnce
 INVARIANT StoppedOnlyWhenAll
+INVARIANT AckedOnlyWhenDone
+INVARIANT StopNeverRaises
 INVARIANT ExternalUntouched
 INVARIANT NoStall
 INVARIANT FaultReported
